@@ -5,9 +5,12 @@ import LunarVerif.Spec.C10
 Ops (one schedule step each; the harness performs the same step on the real queue):
   cfg quota=Q win=W size=S t0=T      fresh queue at instant T
   tick d=D                           clock moves by D (no timer fires by itself)
-  enq r=R p=P ttl=L                  request R (= number of earlier enq ops) runs Enqueue up to the unlock
-  park r=R                           R enters the select   (ttl = 0: the TTL case is taken at once)
-  roll                               the roll-over goroutine's timer fires (if due); released waiters return
+  enq r=R p=P ttl=L                  request R (= number of earlier enq ops) runs Enqueue up to the unlock;
+                                     answer `pass|full|push rel=<waiters it served>`
+  park r=R                           R enters the select   (ttl = 0: the TTL case is taken at once;
+                                     a hand-off already buffered: `released`, R returns true at once)
+  roll                               the roll-over goroutine's timer fires (if due): `rel=<handed off>`;
+                                     released parked waiters return
   expire r=R                         R's TTL timer fires (if parked and due); R returns false
 Every answer ends with the observables ` tte=<windowEnd-now> c=<prio:count,...|->`.
 -/
@@ -27,11 +30,6 @@ def fmtCounts (reqs : List Req) : String :=
   let items := ps.filterMap fun p => let n := countOf reqs p; if n = 0 then none else some s!"{p}:{n}"
   if items.isEmpty then "-" else ",".intercalate items
 
-structure RunSt where
-  cfg : Cfg := ⟨0, 1, 0⟩
-  s : State := init ⟨0, 1, 0⟩ 0
-  ready : Bool := false
-
 def obsSuffix (cfg : Cfg) (s : State) : String :=
   let tte : Int := ((s.widx + 1) * cfg.win : Nat) - (s.now : Int)
   s!" tte={tte} c={fmtCounts s.reqs}"
@@ -50,15 +48,157 @@ def applyAll (cfg : Cfg) (s : State) : List Label → Option State
     | some (s', _) => applyAll cfg s' ls
     | none => none
 
+/-! ### plugin level: one queue (one model state) per remedy key -/
+
+structure KeyQ where
+  key : Nat
+  s : State
+  gids : List Nat     -- global request ids in arrival order (position = model request id)
+
+structure PSt where
+  cfg : Cfg := ⟨0, 1, 0⟩
+  ttl : Nat := 0
+  now : Nat := 0
+  keys : List KeyQ := []       -- creation order
+  arrivals : List Nat := []    -- global ids in arrival order
+  mode : Nat := 0              -- 0 none, 1 burst, 2 sequential
+
+def gidOf (k : KeyQ) (r : Nat) : Nat := k.gids.getD r 0
+
+def fmtDone (k : KeyQ) (rel : List Nat) (sep : String) : String :=
+  let gs := sortDedup (rel.map (gidOf k))
+  if gs.isEmpty then "-" else sep.intercalate (gs.map fun g => s!"{g}:noop")
+
+def setKey (ks : List KeyQ) (k : KeyQ) : List KeyQ :=
+  if ks.any (·.key == k.key) then ks.map (fun x => if x.key == k.key then k else x) else ks ++ [k]
+
+def parsePCfg (ws : List String) : Option (Cfg × Nat × Nat) := do
+  let q ← kvNat ws "quota"
+  let w ← kvNat ws "winsec"
+  let sz ← kvNat ws "size"
+  let ttl ← kvNat ws "ttlsec"
+  let t0 ← kvNat ws "t0"
+  if w = 0 then none else pure (⟨q, w * 1000000000, sz⟩, ttl * 1000000000, t0)
+
+/-- `k` first requests at one instant on a fresh queue: (pass, wait, rej). -/
+def burstModel (cfg : Cfg) (t0 ttl k : Nat) : Nat × Nat × Nat :=
+  match run cfg (init cfg t0) (List.replicate k (.enq 0 ttl)) with
+  | some (s, es) =>
+    (passCount es, waitingCount s.reqs, s.reqs.countP (fun r => r.ph == .full))
+  | none => (0, 0, 0)
+
+/-- The next timer to fire at or before `target`: (due, key, none = roll-over | some r = TTL of r). -/
+def nextTimer (p : PSt) (target : Nat) : Option (Nat × Nat × Option Nat) :=
+  let better (a : Option (Nat × Nat × Option Nat)) (c : Nat × Nat × Option Nat) :=
+    match a with
+    | none => some c
+    | some b => if c.1 < b.1 then some c else some b
+  let rolls := p.keys.foldl (fun acc k =>
+    if k.s.rollDue ≤ target then better acc (k.s.rollDue, k.key, none) else acc) none
+  p.arrivals.foldl (fun acc g =>
+    p.keys.foldl (fun acc k =>
+      match k.gids.idxOf? g with
+      | some r => match phaseOf k.s.reqs r with
+        | .parked dl => if dl ≤ target then better acc (dl, k.key, some r) else acc
+        | _ => acc
+      | none => acc) acc) rolls
+
+def tickAll (p : PSt) (t : Nat) : PSt :=
+  { p with now := t, keys := p.keys.map fun k => { k with s := { k.s with now := t } } }
+
+def ptickLoop (p : PSt) (target : Nat) : Nat → PSt × List String → PSt × List String
+  | 0, acc => acc
+  | fuel + 1, (p, evs) =>
+    match nextTimer p target with
+    | none => (p, evs)
+    | some (due, key, what) =>
+      let p := if p.now < due then tickAll p due else p
+      match p.keys.find? (·.key == key) with
+      | none => (p, evs)
+      | some k =>
+        match what with
+        | none =>
+          match step p.cfg k.s .roll with
+          | some (s', .roll rel) =>
+            let s'' := (applyAll p.cfg s' ((rel.filter (fun x => (phaseOf k.s.reqs x).isParked)).map .finish)).getD s'
+            let p' := { p with keys := setKey p.keys { k with s := s'' } }
+            ptickLoop p' target fuel (p', evs ++ [s!"r{key}@{p.now}:{fmtDone k rel "+"}"])
+          | _ => (p, evs ++ ["model-error"])
+        | some r =>
+          match applyAll p.cfg k.s [.expire r, .finish r] with
+          | some s' =>
+            let p' := { p with keys := setKey p.keys { k with s := s' } }
+            ptickLoop p' target fuel (p', evs ++ [s!"x{gidOf k r}@{p.now}:early:429"])
+          | none => (p, evs ++ ["model-error"])
+
+def pStep (p : PSt) (line : String) : PSt × String :=
+  match words line with
+  | "pburst" :: ws =>
+    match kvNat ws "k", kvNat ws "rounds" with
+    | some k, some r =>
+      if p.mode == 2 || k == 0 || r == 0 || k > 64 || r > 1000 then (p, "bad-op") else
+      let (pass, wait, rej) := burstModel p.cfg p.now p.ttl k
+      ({ p with mode := 1 },
+       s!"rounds={r} created=1..1 pass={pass}..{pass} wait={wait}..{wait} rej={rej}..{rej} other=0..0")
+    | _, _ => (p, "bad-op")
+  | "preq" :: ws =>
+    match kvNat ws "id", kvNat ws "key", kvNat ws "p" with
+    | some id, some key, some prio =>
+      if p.mode == 1 || prio ≥ 8 || key ≥ 100 || p.arrivals.contains id then (p, "bad-op") else
+      let k : KeyQ := (p.keys.find? (·.key == key)).getD ⟨key, init p.cfg p.now, []⟩
+      match step p.cfg k.s (.enq prio p.ttl) with
+      | some (s', .enq _ _ res rel) =>
+        let r := k.s.reqs.length
+        let k' : KeyQ := { k with gids := k.gids ++ [id] }
+        let s1 := (applyAll p.cfg s' ((rel.filter (fun x => (phaseOf k.s.reqs x).isParked)).map .finish)).getD s'
+        let (s2, a) : State × String := match res with
+          | .pass => (s1, "noop")
+          | .full => (s1, "early:429")
+          | .push =>
+            if p.ttl = 0 then ((applyAll p.cfg s1 [.park r, .expire r, .finish r]).getD s1, "early:429")
+            else ((applyAll p.cfg s1 [.park r]).getD s1, "waiting")
+        let k'' := { k' with s := s2 }
+        ({ p with mode := 2, keys := setKey p.keys k'', arrivals := p.arrivals ++ [id] },
+         s!"{a} done={fmtDone k' rel ","} c={fmtCounts s2.reqs}")
+      | _ => (p, "model-error")
+    | _, _, _ => (p, "bad-op")
+  | "ptick" :: ws =>
+    match kvNat ws "d" with
+    | some d =>
+      if p.mode == 1 then (p, "bad-op") else
+      let target := p.now + d
+      let fuel := (d / p.cfg.win + 2) * (p.keys.length + 1) + p.arrivals.length + 2
+      let (p', evs) := ptickLoop p target fuel (p, [])
+      let p'' := tickAll p' target
+      ({ p'' with mode := 2 }, s!"now={target} ev={if evs.isEmpty then "-" else ";".intercalate evs}")
+    | none => (p, "bad-op")
+  | _ => (p, "bad-op")
+
+structure RunSt where
+  cfg : Cfg := ⟨0, 1, 0⟩
+  s : State := init ⟨0, 1, 0⟩ 0
+  ready : Bool := false
+  plugin : Option PSt := none
+
 def runStep (st : RunSt) (line : String) : RunSt × String :=
   let ans (s' : State) (a : String) : RunSt × String := ({ st with s := s' }, a ++ obsSuffix st.cfg s')
   match words line with
   | ["case", id] => ({}, s!"case {id}")
   | "cfg" :: ws =>
+    if st.plugin.isSome then (st, "bad-op") else
     match parseCfg ws with
     | some (cfg, t0) => ({ cfg := cfg, s := init cfg t0, ready := true }, "ok")
     | none => (st, "bad-op")
+  | "pcfg" :: ws =>
+    if st.plugin.isSome || st.ready then (st, "bad-op") else
+    match parsePCfg ws with
+    | some (cfg, ttl, t0) => ({ st with plugin := some { cfg := cfg, ttl := ttl, now := t0 } }, "ok")
+    | none => (st, "bad-op")
   | op :: ws =>
+    if let some p := st.plugin then
+      let (p', a) := pStep p line
+      ({ st with plugin := some p' }, a)
+    else
     if !st.ready then (st, "bad-op") else
     let s := st.s
     match op with
@@ -73,9 +213,11 @@ def runStep (st : RunSt) (line : String) : RunSt × String :=
       | some r, some p, some ttl =>
         if r ≠ s.reqs.length then (st, "bad-op") else
         match step st.cfg s (.enq p ttl) with
-        | some (s', .enq _ _ .pass) => ans s' "pass"
-        | some (s', .enq _ _ .full) => ans s' "full"
-        | some (s', .enq _ _ .push) => ans s' "push"
+        | some (s', .enq _ _ res rel) =>
+          let a := match res with | .pass => "pass" | .full => "full" | .push => "push"
+          match applyAll st.cfg s' ((rel.filter (fun x => (phaseOf s.reqs x).isParked)).map .finish) with
+          | some s'' => ans s'' s!"{a} rel={fmtIds rel}"
+          | none => ans s' "model-error"
         | _ => ans s "not-enabled"
       | _, _, _ => (st, "bad-op")
     | "park" =>
@@ -83,7 +225,11 @@ def runStep (st : RunSt) (line : String) : RunSt × String :=
       | some r =>
         match step st.cfg s (.park r) with
         | some (s', _) =>
-          if (getReq s.reqs r).ttl = 0 then
+          if phaseOf s.reqs r = .gapDone then
+            match applyAll st.cfg s' [.finish r] with
+            | some s'' => ans s'' "released"
+            | none => ans s' "model-error"
+          else if (getReq s.reqs r).ttl = 0 then
             match applyAll st.cfg s' [.expire r, .finish r] with
             | some s'' => ans s'' "ttl0"
             | none => ans s' "model-error"
@@ -94,7 +240,7 @@ def runStep (st : RunSt) (line : String) : RunSt × String :=
       if !ws.isEmpty then (st, "bad-op") else
       match step st.cfg s .roll with
       | some (s', .roll rel) =>
-        match applyAll st.cfg s' (rel.map .finish) with
+        match applyAll st.cfg s' ((rel.filter (fun x => (phaseOf s.reqs x).isParked)).map .finish) with
         | some s'' => ans s'' s!"rel={fmtIds rel}"
         | none => ans s' "model-error"
       | _ => ans s "not-enabled"
@@ -143,18 +289,20 @@ def judgeStep (s : JudgeSt) (op out : String) : JudgeSt :=
     | some d, some n => if n = s.o.now + d then checkC (s.push [.tick d]) else fail "clock"
     | _, _ => fail "unparsable"
   | "enq" :: ws =>
-    match kvNat ws "r", kvNat ws "p", kvNat ws "ttl", ows.head? with
-    | some r, some p, some ttl, some a =>
+    match kvNat ws "r", kvNat ws "p", kvNat ws "ttl", ows.head?, (kv ows "rel").bind parseIds with
+    | some r, some p, some ttl, some a, some rel =>
       if r ≠ s.o.reqs.length then fail "bad-request-id" else
-      if a == "pass" then checkC (s.push [.enq p ttl .pass])
-      else if a == "full" then checkC (s.push [.enq p ttl .full])
-      else if a == "push" then checkC (s.push [.enq p ttl .push])
+      let fin := (rel.filter (fun x => (phaseOf s.o.reqs x).isParked)).map (fun x => Ev.finish x true)
+      if a == "pass" then checkC (s.push (.enq p ttl .pass rel :: fin))
+      else if a == "full" then checkC (s.push (.enq p ttl .full rel :: fin))
+      else if a == "push" then checkC (s.push (.enq p ttl .push rel :: fin))
       else fail "unparsable"
-    | _, _, _, _ => fail "unparsable"
+    | _, _, _, _, _ => fail "unparsable"
   | "park" :: ws =>
     match kvNat ws "r", ows.head? with
     | some r, some a =>
       if a == "not-enabled" then checkC s
+      else if a == "released" then checkC (s.push [.park r, .finish r true])
       else if a == "ttl0" then
         if (getReq s.o.reqs r).ttl = 0 then checkC (s.push [.park r, .expire r, .finish r false]) else fail "ttl0-with-positive-ttl"
       else if a == "parked" then
@@ -168,7 +316,8 @@ def judgeStep (s : JudgeSt) (op out : String) : JudgeSt :=
     | some a =>
       if a == "not-enabled" then checkC s else
       match (kv ows "rel").bind parseIds with
-      | some rel => checkC (s.push (.roll rel :: rel.map (fun r => .finish r true)))
+      | some rel => checkC (s.push (.roll rel ::
+          (rel.filter (fun x => (phaseOf s.o.reqs x).isParked)).map (fun r => .finish r true)))
       | none => fail "unparsable"
     | none => fail "unparsable"
   | "expire" :: ws =>
@@ -182,13 +331,139 @@ def judgeStep (s : JudgeSt) (op out : String) : JudgeSt :=
 
 def fmtEv : Ev → String
   | .tick d => s!"tick({d})"
-  | .enq p ttl .pass => s!"enq(p={p},ttl={ttl})=pass"
-  | .enq p ttl .full => s!"enq(p={p},ttl={ttl})=full"
-  | .enq p ttl .push => s!"enq(p={p},ttl={ttl})=push"
+  | .enq p ttl .pass rel => s!"enq(p={p},ttl={ttl})=pass,rel={fmtIds rel}"
+  | .enq p ttl .full rel => s!"enq(p={p},ttl={ttl})=full,rel={fmtIds rel}"
+  | .enq p ttl .push rel => s!"enq(p={p},ttl={ttl})=push,rel={fmtIds rel}"
   | .park r => s!"park({r})"
   | .roll rel => s!"roll(rel={fmtIds rel})"
   | .expire r => s!"expire({r})"
   | .finish r ok => s!"finish({r},{ok})"
+
+/-! ### judge, plugin level: one observer per remedy key -/
+
+structure KJ where
+  key : Nat
+  t0 : Nat
+  o : Obs
+  evs : List Ev := []      -- most recent first
+  gids : List Nat := []
+
+structure PJ where
+  cfg : Cfg
+  ttl : Nat
+  now : Nat
+  keys : List KJ := []
+  arrivals : List Nat := []
+
+def KJ.push (cfg : Cfg) (k : KJ) (es : List Ev) : KJ :=
+  { k with o := es.foldl (obsStep cfg) k.o, evs := es.reverse ++ k.evs }
+
+/-- bring the key's observer clock to instant `t` -/
+def KJ.at (cfg : Cfg) (k : KJ) (t : Nat) : KJ :=
+  if k.o.now < t then k.push cfg [.tick (t - k.o.now)] else k
+
+def setKJ (ks : List KJ) (k : KJ) : List KJ :=
+  if ks.any (·.key == k.key) then ks.map (fun x => if x.key == k.key then k else x) else ks ++ [k]
+
+def parseSpan (s : String) : Option (Nat × Nat) :=
+  match s.splitOn ".." with
+  | [a, b] => do pure (← a.toNat?, ← b.toNat?)
+  | _ => none
+
+/-- `gid:noop` items → global ids -/
+def parseDone (s : String) (sep : String) : Option (List Nat) :=
+  if s == "-" then some [] else
+  (s.splitOn sep).mapM fun it => match it.splitOn ":" with
+    | [g, "noop"] => g.toNat?
+    | _ => none
+
+def finishEvs (k : KJ) (rel : List Nat) : List Ev :=
+  (rel.filter (fun x => (phaseOf k.o.reqs x).isParked)).map (fun x => Ev.finish x true)
+
+def pjStep (p : PJ) (op out : String) : Except String PJ :=
+  let ows := words out
+  match words op with
+  | "pburst" :: ws =>
+    match kvNat ws "k", (kv ows "created").bind parseSpan, (kv ows "pass").bind parseSpan,
+          (kv ows "wait").bind parseSpan, (kv ows "rej").bind parseSpan, (kv ows "other").bind parseSpan with
+    | some k, some c, some pa, some w, some r, some ot =>
+      if c.2 > 1 || pa.2 > p.cfg.quota || w.2 > p.cfg.size then
+        .error s!"burst-violates-one-queue-per-key-or-its-bounds:{pctEnc out}"
+      else if c.1 ≠ c.2 || pa.1 ≠ pa.2 || w.1 ≠ w.2 || r.1 ≠ r.2 || ot ≠ (0, 0) then
+        .error s!"burst-rounds-disagree:{pctEnc out}"
+      else if burstOk p.cfg k c.1 pa.1 w.1 r.1 then .ok p
+      else .error s!"burst-violates-one-queue-per-key-or-its-bounds:{pctEnc out}"
+    | _, _, _, _, _, _ => .error s!"unparsable:{pctEnc out}"
+  | "preq" :: ws =>
+    match kvNat ws "id", kvNat ws "key", kvNat ws "p", ows.head?, (kv ows "done").bind (parseDone · ","), kv ows "c" with
+    | some id, some key, some prio, some a, some done, some c =>
+      let k0 : KJ := (p.keys.find? (·.key == key)).getD ⟨key, p.now, Obs.init p.cfg p.now, [], []⟩
+      let k := k0.at p.cfg p.now
+      match done.mapM (fun g => k.gids.idxOf? g) with
+      | none => .error s!"released-request-of-another-key:{pctEnc out}"
+      | some rel =>
+        let r := k.o.reqs.length
+        let fin := finishEvs k rel
+        let res : Option (List Ev) :=
+          if a == "noop" then some (.enq prio p.ttl .pass rel :: fin)
+          else if a == "early:429" then
+            if p.ttl = 0 then some (.enq prio p.ttl .push rel :: fin ++ [.park r, .expire r, .finish r false])
+            else some (.enq prio p.ttl .full rel :: fin)
+          else if a == "waiting" then some (.enq prio p.ttl .push rel :: fin ++ [.park r])
+          else none
+        match res with
+        | none => .error s!"unparsable:{pctEnc out}"
+        | some es =>
+          let k' := { (k.push p.cfg es) with gids := k.gids ++ [id] }
+          if c != fmtCounts k'.o.reqs then .error s!"counts-mismatch:{pctEnc out}:expected={fmtCounts k'.o.reqs}"
+          else .ok { p with keys := setKJ p.keys k', arrivals := p.arrivals ++ [id] }
+    | _, _, _, _, _, _ => .error s!"unparsable:{pctEnc out}"
+  | "ptick" :: ws =>
+    match kvNat ws "d", kvNat ows "now", kv ows "ev" with
+    | some d, some n, some ev =>
+      if n ≠ p.now + d then .error "clock" else
+      let items := if ev == "-" then [] else ev.splitOn ";"
+      let go (acc : Except String PJ) (it : String) : Except String PJ := do
+        let p ← acc
+        match it.splitOn "@" with
+        | [hd, rest] =>
+          match rest.splitOn ":" with
+          | tstr :: tl =>
+            let some t := tstr.toNat? | .error s!"unparsable:{pctEnc it}"
+            let body := ":".intercalate tl
+            if hd.startsWith "r" then
+              let some key := (hd.drop 1).toString.toNat? | .error s!"unparsable:{pctEnc it}"
+              let some k0 := p.keys.find? (·.key == key) | .error s!"roll-over-of-unknown-key:{pctEnc it}"
+              let some done := parseDone body "+" | .error s!"unparsable:{pctEnc it}"
+              let k := k0.at p.cfg t
+              let some rel := done.mapM (fun g => k.gids.idxOf? g) | .error s!"released-request-of-another-key:{pctEnc it}"
+              .ok { p with keys := setKJ p.keys (k.push p.cfg (.roll rel :: finishEvs k rel)) }
+            else if hd.startsWith "x" then
+              let some g := (hd.drop 1).toString.toNat? | .error s!"unparsable:{pctEnc it}"
+              let some k0 := p.keys.find? (fun k => k.gids.contains g) | .error s!"expiry-of-unknown-request:{pctEnc it}"
+              let some r := k0.gids.idxOf? g | .error "impossible"
+              if body != "early:429" then .error s!"expired-request-not-refused:{pctEnc it}" else
+              let k := k0.at p.cfg t
+              .ok { p with keys := setKJ p.keys (k.push p.cfg [.expire r, .finish r false]) }
+            else .error s!"unparsable:{pctEnc it}"
+          | [] => .error s!"unparsable:{pctEnc it}"
+        | _ => .error s!"unparsable:{pctEnc it}"
+      match items.foldl go (.ok p) with
+      | .ok p' => .ok { p' with now := n }
+      | .error e => .error e
+    | _, _, _ => .error s!"unparsable:{pctEnc out}"
+  | _ => .error "unknown-op"
+
+def pjFinish (p : PJ) : String :=
+  match p.keys.find? (fun k => !(holds p.cfg k.t0 k.evs.reverse)) with
+  | none => "ok"
+  | some k =>
+    let es := k.evs.reverse
+    match firstFail p.cfg (Obs.init p.cfg k.t0) es 0 with
+    | some (fid, i, what) =>
+      let e := match es[i]? with | some e => fmtEv e | none => "?"
+      s!"fail {fid} key-{k.key}:{what}-violated-at-event-{i}:{e}"
+    | none => s!"fail - key-{k.key}:spec-violated"
 
 def judgeFinish (s : JudgeSt) : String :=
   match s.bad with
@@ -196,14 +471,44 @@ def judgeFinish (s : JudgeSt) : String :=
   | none =>
     let es := s.evs.reverse
     if holds s.cfg s.t0 es then "ok" else
-    match firstFail s.cfg (Obs.init s.cfg s.t0) es 0 false with
+    match firstFail s.cfg (Obs.init s.cfg s.t0) es 0 with
     | some (fid, i, what) =>
       let e := match es[i]? with | some e => fmtEv e | none => "?"
       s!"fail {fid} {what}-violated-at-event-{i}:{e}"
     | none => "fail - spec-violated"
 
+structure JTop where
+  base : JudgeSt := {}
+  pj : Option PJ := none
+  bad : Option String := none
+
+def jtopStep (s : JTop) (op out : String) : JTop :=
+  if s.bad.isSome || out == "bad-op" then s else
+  match words op with
+  | "pcfg" :: ws =>
+    match parsePCfg ws with
+    | some (cfg, ttl, t0) =>
+      if out == "ok" then { s with pj := some { cfg := cfg, ttl := ttl, now := t0 } }
+      else { s with bad := some "cfg-refused" }
+    | none => { s with bad := some "unparsable-cfg" }
+  | _ =>
+    match s.pj with
+    | some p =>
+      match pjStep p op out with
+      | .ok p' => { s with pj := some p' }
+      | .error e => { s with bad := some (e ++ ":" ++ pctEnc op) }
+    | none => { s with base := judgeStep s.base op out }
+
+def jtopFinish (s : JTop) : String :=
+  match s.bad with
+  | some b => s!"fail - {b}"
+  | none =>
+    match s.pj with
+    | some p => pjFinish p
+    | none => judgeFinish s.base
+
 def main (args : List String) : IO Unit :=
   match args with
   | ["run"] => runLoop runStep {}
-  | ["judge"] => judgeLoop ({} : JudgeSt) judgeStep judgeFinish
+  | ["judge"] => judgeLoop ({} : JTop) jtopStep jtopFinish
   | _ => IO.eprintln "usage: lvdriver_c10 run|judge"
